@@ -110,7 +110,7 @@ CLAIMED = {
         "Bundle: coherence is an invariant of every operation and hence of every finite sequence of setattr/add/get/getattr/delattr/"
         "elaborate; refinement to a name->object map; rejections (reserved names, non-HDL values, deletion, post-elaboration additions, "
         "second name for one object) leave the state unchanged; every natively answered name is reserved (table theorem over names "
-        "regenerated from /repo). Tied to the code by random operation sequences with the full observable state compared after every op.",
+        "regenerated from /repo). Tied to the code by random operation sequences with the full observable state compared after every op. Names with a leading underscore are never HDL names (underscore_names: add() refuses them, an assignment stores a plain Python attribute and files nothing); an HDL object assigned to `name` is refused; a bundle definition is frozen once a design using it has been elaborated.",
         note="Model hand-written after module.py/bundle.py (_add, _assert_addable, add, __setattr__, get, __getattr__, __delattr__); "
         "reserved/native name lists regenerated from /repo on every run. Alphabet excludes underscore names, Signal.vis mutation, m.name=str.",
         ref="DESIGN.md §6 C18",
@@ -299,7 +299,7 @@ CLAIMED = {
         "connections) with the model's import, and by evaluating Shape on every exported module. Parameter values, external modules with port "
         "order and spice type, literals, and that re-elaboration of imported modules changes nothing are "
         "decided by correspondence: to_proto(from_proto(P)) == P as protobuf equality for packages of generated designs (3 styles), the "
-        "repository's examples (all top-level modules re-exported), built-in generators and the primitive / external-module parameter space.",
+        "repository's examples (all top-level modules re-exported), built-in generators and the primitive / external-module parameter space. The module-level model exists for both layouts an exporter may give the signal list of a module (internal signals first: module_roundtrip; the ports' signals first: module_roundtrip_ports_first); which one the code at hand writes is read off a probe module on every run.",
         note="Parameter values and instance targets are carried through the module-level model unchanged (their value-level round trip is the "
         "table theorems plus protobuf equality on every explored package); external-module declarations and literals are correspondence-only.",
         ref="DESIGN.md §6 C11",
@@ -320,7 +320,7 @@ CLAIMED = {
         "design per clash class are included; the package must keep unique names (Lean WFpkg), keep every designer "
         "signal and instance, and have the same name-free net partition as the friendly-named design.",
         note="Connectivity is compared on name-free descriptors (kind, port, bit, depth), which detects merged / split nets but not a swap "
-        "between two identical devices. Rejection of a renamed design is accepted (resolved by raising).",
+        "between two identical devices. Rejection of a renamed design is accepted (resolved by raising). Which fresh name is chosen is left to the code: the passes' own names are judged by the spec inventAll_spec proves (fresh, pairwise distinct, namespace = old + new); agreement with the model's underscore-appending flatname is recorded in the evidence, not demanded.",
         ref="DESIGN.md §6 C05",
         technique="Lean 4 proof (freshness, shape, totality by pigeonhole of the flatname loop) + adversarial-name differential correspondence",
     ),
